@@ -154,7 +154,7 @@ func Verif_C11_SetUserThenAuth() {
 	ctx := context.Background()
 	vr.Assert(a.AuthenticateConnection(ctx, conn, []string{"AUTH", name, p1}) == nil, "C11.setuser.new_user_can_authenticate")
 	vr.Assert(a.AuthenticateConnection(ctx, conn, []string{"AUTH", name, p2}) != nil, "C11.setuser.wrong_password_is_rejected")
-	edit := vr.Choose("edit", 7)
+	edit := vr.Choose("edit", 12)
 	probe := newConn()
 	a.RegisterConnection(probe)
 	switch edit {
@@ -177,6 +177,32 @@ func Verif_C11_SetUserThenAuth() {
 	case 5: // hashed password
 		vr.Assert(a.SetUser([]string{name, "#" + shaHex(p2)}) == nil, "C11.setuser.edit")
 		vr.Assert(a.AuthenticateConnection(ctx, probe, []string{"AUTH", name, p2}) == nil, "C11.setuser.hashed_password_works")
+	case 7: // a hashed password added and then removed with the !<hash> spelling
+		vr.Assert(a.SetUser([]string{name, "#" + shaHex(p2)}) == nil, "C11.setuser.edit")
+		vr.Assert(a.SetUser([]string{name, "!" + shaHex(p2)}) == nil, "C11.setuser.edit")
+		vr.Assert(a.AuthenticateConnection(ctx, probe, []string{"AUTH", name, p2}) != nil, "C11.setuser.removed_hash_is_rejected")
+		vr.Assert(a.AuthenticateConnection(ctx, probe, []string{"AUTH", name, p1}) == nil, "C11.setuser.other_password_survives_hash_removal")
+	case 8: // !<x> names a hash entry: a plaintext password spelled x is not removed by it
+		vr.Assert(a.SetUser([]string{name, "!" + p1}) == nil, "C11.setuser.edit")
+		vr.Assert(a.AuthenticateConnection(ctx, probe, []string{"AUTH", name, p1}) == nil, "C11.setuser.hash_removal_leaves_plaintext_password")
+	case 9: // <p removes the plaintext entry only: the same password stored as a hash still works
+		vr.Assert(a.SetUser([]string{name, "#" + shaHex(p1)}) == nil, "C11.setuser.edit")
+		vr.Assert(a.SetUser([]string{name, "<" + p1}) == nil, "C11.setuser.edit")
+		vr.Assert(a.AuthenticateConnection(ctx, probe, []string{"AUTH", name, p1}) == nil, "C11.setuser.plaintext_removal_leaves_hash_entry")
+		vr.Assert(a.SetUser([]string{name, "!" + shaHex(p1)}) == nil, "C11.setuser.edit")
+		vr.Assert(a.AuthenticateConnection(ctx, probe, []string{"AUTH", name, p1}) != nil, "C11.setuser.removed_password_is_rejected")
+	case 10: // off then on again
+		vr.Assert(a.SetUser([]string{name, "off"}) == nil, "C11.setuser.edit")
+		vr.Assert(a.SetUser([]string{name, "on"}) == nil, "C11.setuser.edit")
+		vr.Assert(a.AuthenticateConnection(ctx, probe, []string{"AUTH", name, p1}) == nil, "C11.setuser.reenabled_user_can_authenticate")
+		vr.Assert(a.AuthenticateConnection(ctx, probe, []string{"AUTH", name, p2}) != nil, "C11.setuser.wrong_password_is_rejected")
+	case 11: // nopass and then a password again: the password is required once more
+		vr.Assert(a.SetUser([]string{name, "nopass"}) == nil, "C11.setuser.edit")
+		vr.Assert(a.SetUser([]string{name, ">" + p2}) == nil, "C11.setuser.edit")
+		vr.Assert(a.AuthenticateConnection(ctx, probe, []string{"AUTH", name, p2}) == nil, "C11.setuser.added_password_works")
+		q := vr.Tok("q")
+		vr.Assume(q != p1 && q != p2)
+		vr.Assert(a.AuthenticateConnection(ctx, probe, []string{"AUTH", name, q}) != nil, "C11.setuser.wrong_password_is_rejected")
 	case 6: // delete the user; default survives deletion
 		vr.Assert(a.DeleteUser(ctx, []string{name, "default"}) == nil, "C11.deluser")
 		vr.Assert(a.AuthenticateConnection(ctx, probe, []string{"AUTH", name, p1}) != nil, "C11.deluser.deleted_user_cannot_authenticate")
